@@ -2,6 +2,7 @@ package main
 
 import (
 	"fmt"
+	"go/ast"
 	"go/token"
 	"go/types"
 	"strings"
@@ -182,6 +183,10 @@ func (e *Exec) checkPost(retIdx int, reach string, h *Heap, vals []Term, pos tok
 		return
 	}
 	vc := e.vc
+	// ghost field updates of the contract take effect when the function returns
+	for _, gs := range e.con.GhostSets {
+		h = e.applyGhostSet(gs, h, at, reach)
+	}
 	for j, cl := range e.con.clauses("ensures") {
 		env := e.topEnv(h, at, reach)
 		var ret Term
@@ -244,6 +249,11 @@ func (p *Program) VerifyFunction(u *Universe, fn *ssa.Function) *VC {
 	}
 	e.heap0 = h0
 	p.assumeGlobalFacts(e, fn, h0)
+	// module convention (an obligation at every static call site, see staticCall): methods with a
+	// pointer receiver are not called on nil
+	if implicitRecvNonNil(fn) && len(args) > 0 {
+		vc.assume(not(eq(args[0].S, "0")))
+	}
 	if e.con != nil {
 		var pres []string
 		for _, cl := range e.con.clauses("requires") {
@@ -305,4 +315,43 @@ func (p *Program) VerifyFunction(u *Universe, fn *ssa.Function) *VC {
 
 func describeFn(fn *ssa.Function) string {
 	return strings.TrimPrefix(fn.String(), modulePath+"/")
+}
+
+// implicitRecvNonNil: fn is a module method with a pointer receiver (not a logger, whose nil
+// receiver is tested explicitly all over the module).
+func implicitRecvNonNil(fn *ssa.Function) bool {
+	if fn == nil || fn.Signature.Recv() == nil || fn.Package() == nil || !inModule(fn.Package().Pkg) {
+		return false
+	}
+	if _, ok := fn.Signature.Recv().Type().(*types.Pointer); !ok {
+		return false
+	}
+	return len(fn.Blocks) > 0 && fn.Synthetic == ""
+}
+
+func (e *Exec) applyGhostSet(gs GhostSet, h *Heap, at *ssa.BasicBlock, reach string) *Heap {
+	call, ok := gs.LHS.(*ast.CallExpr)
+	if !ok {
+		e.vc.unsupportedf("ghostset %s: left side must be field(obj)", gs.Src)
+		return h
+	}
+	id, ok := call.Fun.(*ast.Ident)
+	if !ok || len(call.Args) != 1 {
+		e.vc.unsupportedf("ghostset %s: left side must be field(obj)", gs.Src)
+		return h
+	}
+	so, ok := e.p.ghostFields[id.Name]
+	if !ok {
+		e.vc.unsupportedf("ghostset %s: unknown ghost field", gs.Src)
+		return h
+	}
+	env := e.topEnv(h, at, reach)
+	obj, err1 := env.eval(call.Args[0])
+	val, err2 := env.eval(gs.RHS)
+	if err1 != nil || err2 != nil {
+		e.vc.unsupportedf("ghostset %s: %v %v", gs.Src, err1, err2)
+		return h
+	}
+	hv := ghostFieldVar(e.u(), id.Name, so)
+	return h.set(hv, app("store", h.get(hv), obj.S, val.S))
 }
